@@ -138,14 +138,19 @@ package db
 
 // Property C06: rolling back a commit leaves no cached undo overlay behind (they were computed against the removed commit).
 //@ func ldbManager.Pop(m)
-//@   requires m != nil && m.l1Cache != nil && m.l2Cache != nil
+//@   requires m != nil && m.l1Cache != nil && m.l2Cache != nil && m.ldb != nil
 //@   ensures[no-overlay-survives-a-rollback] result == nil ==> m.l1Cache.size == 0 && m.l2Cache.size == 0
+//@   ensures[at-most-one-durable-step] m.ldb.writes <= old(m.ldb.writes) + 1
+//@   ensures[failure-writes-nothing] result != nil ==> m.ldb.writes == old(m.ldb.writes) || m.ldb.writes == old(m.ldb.writes) + 1
+//@   at-call Write assert[step-removes-redo-and-undo-records] arg1.dels[bcat(bytesval(patchByte), common.be64enc(frontierIdentifier.Height))] && arg1.dels[bcat(bytesval(rollbackByte), common.be64enc(frontierIdentifier.Height))]
 
 // Property C07: "a commit is accepted only on top of the current frontier - any other parent is refused without changing
 // the store": every write of Add happens only when the transaction's parent is the manager's current frontier.
 //@ func ldbManager.Add(m, transaction)
-//@   requires m != nil
+//@   requires m != nil && m.ldb != nil
 //@   at-call ApplyPatch assert[parent-is-current-frontier] previous.Hash == m.frontierHash && previous.Height == m.frontierHeight
+//@   ensures[at-most-one-durable-step] m.ldb.writes <= old(m.ldb.writes) + 1
+//@   at-call Write assert[step-carries-redo-and-undo-records] arg1.puts[bcat(bytesval(patchByte), common.be64enc(identifier.Height))] && arg1.puts[bcat(bytesval(rollbackByte), common.be64enc(identifier.Height))]
 
 //@ func Transaction.GetCommits(self)
 //@   ensures len(result) > 0
@@ -187,3 +192,64 @@ package db
 // Manager.Pop as seen by the momentum pool: the pool's frontier store changes
 //@ func Manager.Pop(self)
 //@   modifies MF:chain.momentumPool.frontierStore, MF:chain/store.Momentum.idHeight, MF:chain/store.Momentum.idHash
+
+// ======================================================================================================================
+// Property C08: committing or rolling back a momentum is atomic across a process crash.
+// The durable state is the LevelDB store. ASSUMED (goleveldb's journal): each call of (*leveldb.DB).Put / Delete / Write is one
+// atomic durable step - a crash leaves the store as it was before or after the whole step, a Write with all operations of its
+// batch. `writes` counts the durable steps issued on a store; a function that issues at most ONE durable step, and issues it
+// last, is atomic across a crash: at every instant the store is in the state before or the state after.
+//@ model github.com/syndtr/goleveldb/leveldb:DB writes int
+//@ func github.com/syndtr/goleveldb/leveldb:DB.Put(db, key, value, wo)
+//@   ensures db.writes == old(db.writes) + 1
+//@   modifies db.writes
+//@ func github.com/syndtr/goleveldb/leveldb:DB.Delete(db, key, wo)
+//@   ensures db.writes == old(db.writes) + 1
+//@   modifies db.writes
+//@ func github.com/syndtr/goleveldb/leveldb:DB.Write(db, batch, wo)
+//@   ensures db.writes == old(db.writes) + 1
+//@   modifies db.writes
+
+// A batch only collects: which keys it puts / deletes (by abstract byte string).
+//@ model github.com/syndtr/goleveldb/leveldb:Batch puts map[int]bool
+//@ model github.com/syndtr/goleveldb/leveldb:Batch dels map[int]bool
+//@ func github.com/syndtr/goleveldb/leveldb:Batch.Put(b, key, value)
+//@   ensures b.puts == store(old(b.puts), bytesval(key), true) && b.dels == old(b.dels)
+//@   modifies b.puts
+//@ func github.com/syndtr/goleveldb/leveldb:Batch.Delete(b, key)
+//@   ensures b.dels == store(old(b.dels), bytesval(key), true) && b.puts == old(b.puts)
+//@   modifies b.dels
+
+// live(d): writes through the view d reach the LevelDB store directly, one durable step each. A view made by ldbBatch.View
+// writes into the batch only (ASSUMED for the three-line body: enableDelete over a levelDBWrapper whose Put appends to the
+// batch); sub-views inherit it.
+//@ spec live(d DB) bool
+//@ func NewLevelDBWrapper(db)
+//@   trusted
+//@   ensures result != nil && live(result)
+//@   modifies nothing
+//@ func ldbBatch.View(b)
+//@   trusted
+//@   ensures result != nil && !live(result)
+//@   modifies nothing
+//@ func newLdbBatch(ldb)
+//@   trusted
+//@   ensures result != nil && fresh(result) && result.DB == ldb && result.batch != nil && fresh(result.batch)
+//@   modifies nothing
+//@ func DB.Subset(self, prefix)
+//@   ensures result != nil && live(result) == live(self)
+//@   modifies nothing
+
+// Replaying a patch onto a view: ASSUMED to write through the view only. It is never handed a live view (so it issues no
+// durable step); which keys it adds to a batch is not tracked.
+//@ func ApplyPatch(db, patch) -> (err)
+//@   trusted
+//@   requires[writes-go-to-a-batch-not-to-the-store] !live(db)
+//@   modifies MF:github.com/syndtr/goleveldb/leveldb.Batch.puts, MF:github.com/syndtr/goleveldb/leveldb.Batch.dels, MF:common/db.Patch.opCount
+
+// reading the stored undo record of a height
+//@ func ldbManager.getRollback(m, height)
+//@   trusted
+//@   modifies nothing
+//@ func Patch.Dump(self)
+//@   modifies nothing
